@@ -250,6 +250,15 @@ pub fn run(scn: &MScn, oracles: &[Oracle], out: &mut Outcome, fp: &mut Fp, tr: &
                             || (has(Oracle::Interrupts) && (info.pending_any || res.err() == Some("Interrupt")))
                             || (has(Oracle::Protection) && pre_user_checked && (prot(res.err()) || prot(mres_kind)));
                         if !mine {
+                            // the observer's business even so: a step that (by the model) ends before anything is
+                            // touched — an external interrupt, a refused fetch — must leave no marks
+                            if has(Oracle::Observer) {
+                                for (a, st) in &acc {
+                                    if *a < 0xFE00 && ((st.read() && !m.reads.contains(a)) || (st.written() && !m.writes.contains_key(a))) {
+                                        fail!("observer-extra", format!("step at x{:04X} ({}): the model's step ends with {:?} and touches {:?}/{:?}; the observer recorded x{a:04X} (read={}, written={}) and the call returned {:?}", m.prefetch_pc(), info.class, mres, m.reads, m.writes.keys().collect::<Vec<_>>(), st.read(), st.written(), res));
+                                    }
+                                }
+                            }
                             out.bump("harness.foreign-divergence");
                         foreign = true;
                             break 'ops;
